@@ -264,9 +264,26 @@ fn func_any() -> BoxedStrategy<Func> {
     .boxed()
 }
 
-fn expr_strategy(peer_safe_only: bool) -> BoxedStrategy<ExprSpec> {
+/// `bounded`: rewrite the expression so that it reports `uses_bounded_memory()` (otherwise about half of
+/// the multi-expression cases would only ever reach `WindowAggExec`)
+fn expr_strategy(peer_safe_only: bool, bounded: bool) -> BoxedStrategy<ExprSpec> {
     let f = if peer_safe_only { func_peer_safe() } else { func_any() };
-    (f, frame_strategy(), prop::bool::weighted(0.2)).prop_map(|(func, frame, ignore_nulls)| ExprSpec { func, frame, ignore_nulls }).boxed()
+    (f, frame_strategy(), prop::bool::weighted(0.2), 0u8..4)
+        .prop_map(move |(mut func, mut frame, ignore_nulls, k)| {
+            if bounded {
+                func = match func {
+                    Func::PercentRank => Func::Rank,
+                    Func::CumeDist => Func::DenseRank,
+                    Func::Ntile { .. } => Func::RowNumber,
+                    f => f,
+                };
+                if let Frame::Explicit { units, start, end: Bound::UnboundedFollowing } = frame {
+                    frame = Frame::Explicit { units, start, end: Bound::Following(k.max(match start { Bound::Following(s) => s, _ => 0 })) };
+                }
+            }
+            ExprSpec { func, frame, ignore_nulls }
+        })
+        .boxed()
 }
 
 fn row_strategy() -> BoxedStrategy<Row> {
@@ -505,8 +522,10 @@ fn case_strategy(tier: Tier) -> BoxedStrategy<Case> {
         6 => prop::collection::vec(row_strategy(), 3..max_rows),
     ];
     let exprs = prop_oneof![
-        4 => prop::collection::vec(expr_strategy(true), 1..4),
-        5 => prop::collection::vec(expr_strategy(false), 1..4),
+        3 => prop::collection::vec(expr_strategy(true, true), 1..4),
+        2 => prop::collection::vec(expr_strategy(true, false), 1..4),
+        3 => prop::collection::vec(expr_strategy(false, true), 1..4),
+        2 => prop::collection::vec(expr_strategy(false, false), 1..4),
     ];
     let batch = prop_oneof![Just(1u16), Just(2), Just(3), Just(5), Just(7), Just(8192)];
     (
@@ -1021,7 +1040,7 @@ fn oracle(c: &Case, rows: &[PRow], flip_ties: bool) -> OracleOut {
 
 fn schema() -> SchemaRef {
     Arc::new(Schema::new(vec![
-        Field::new("id", DataType::Int64, false),
+        Field::new("id", DataType::UInt64, false),
         Field::new("p1", DataType::Int64, true),
         Field::new("p2", DataType::Utf8, true),
         Field::new("o1", DataType::Int64, true),
@@ -1036,6 +1055,7 @@ fn build_batch(schema: &SchemaRef, rows: &[&PRow]) -> Result<RecordBatch, String
     let mut cols: Vec<ArrayRef> = vec![];
     for (ci, f) in schema.fields().iter().enumerate() {
         let arr: ArrayRef = match f.data_type() {
+            DataType::UInt64 => Arc::new(UInt64Array::from(rows.iter().map(|r| if let Val::I(x) = &r.cols[ci] { Some(*x as u64) } else { None }).collect::<Vec<_>>())),
             DataType::Int64 => Arc::new(Int64Array::from(rows.iter().map(|r| if let Val::I(x) = &r.cols[ci] { Some(*x) } else { None }).collect::<Vec<_>>())),
             DataType::Float64 => Arc::new(Float64Array::from(rows.iter().map(|r| if let Val::F(x) = &r.cols[ci] { Some(*x) } else { None }).collect::<Vec<_>>())),
             DataType::Utf8 => Arc::new(StringArray::from(rows.iter().map(|r| if let Val::S(x) = &r.cols[ci] { Some(x.clone()) } else { None }).collect::<Vec<_>>())),
@@ -1102,6 +1122,7 @@ fn df_frame(frame: &Frame, order: &[OrdKey]) -> WindowFrame {
                 Units::Range => match order.first().map(|k| k.col) {
                     // bounds are coerced to the type of the (first) ORDER BY key
                     Some(OCol::O2) => (WindowFrameUnits::Range, ScalarValue::Float64(None), Box::new(|k| ScalarValue::Float64(Some(range_delta_f64(k, 4))))),
+                    Some(OCol::Id) => (WindowFrameUnits::Range, ScalarValue::UInt64(None), Box::new(|k| ScalarValue::UInt64(Some(k as u64)))),
                     Some(_) => (WindowFrameUnits::Range, ScalarValue::Int64(None), Box::new(|k| ScalarValue::Int64(Some(k as i64)))),
                     None => (WindowFrameUnits::Range, ScalarValue::UInt64(None), Box::new(|k| ScalarValue::UInt64(Some(k as u64)))),
                 },
@@ -1379,7 +1400,7 @@ impl Property for C09 {
         case_strategy(tier)
     }
     fn budget(&self, tier: Tier) -> Budget {
-        Budget::new(tier.pick(2_000, 150_000), tier.pick(8, 16)).min_nontrivial(tier.pick(400, 30_000)).case_timeout(120)
+        Budget::new(tier.pick(40_000, 3_000_000), tier.pick(8, 16)).min_nontrivial(tier.pick(10_000, 800_000)).case_timeout(120)
     }
     fn rule(&self) -> String {
         "0-28 (thorough 0-70) rows with id/2 partition cols/2 order cols (ties, NULLs)/3 value cols; 0-2 PARTITION BY columns, 0-3 ORDER BY keys \
